@@ -37,8 +37,23 @@ m = {
  "not_applicable": NOT_APPLICABLE,
  "notes": "All checks decide by observing executions of the real code (runtime monitoring). exit 0 = held on everything observed, exit 1 = VIOLATION, exit 2 = INCONCLUSIVE (watchdog / monitor observed nothing). known_findings.jsonl lists recorded and fixed defects.",
 }
+import re, glob
+def _counts(pid):
+    """sums the per-stream case counts of a property from its source file (streams with literal counts)"""
+    q = t = 0
+    for f in glob.glob(os.path.join(HERE, "harness", "props", pid.lower() + "*.go")):
+        for mm in re.finditer(r"Quick: (\d+), Thorough: (\d+)", open(f).read()):
+            q += int(mm.group(1)); t += int(mm.group(2))
+    return q, t
+def _sci(n):
+    e = len(str(n)) - 1
+    mant = round(n / 10**e, 2)
+    s = ("%g" % mant)
+    return ("10^%d" % e) if s == "1" else ("%s*10^%d" % (s, e))
 for pid in sorted(CHECKS):
     tech, text, note, ref = CHECKS[pid]
+    q, t = _counts(pid)
+    text = text.replace("{Q}", _sci(q)).replace("{T}", _sci(t))
     m["checks"].append({
       "property_id": pid,
       "quick_cmd": "./check %s quick" % pid,
